@@ -30,6 +30,11 @@ PROFILE = S.profile(min_tasks=1, max_tasks=4, p_resources=60, task_constraints=(
 PROFILE_IND = S.profile(min_tasks=1, max_tasks=3, horizon=(3, 6), p_no_horizon=0, p_resources=30, task_constraints=(0, 1), optional_rules=(0, 0), resource_constraints=(0, 0),
                         indicators=(1, 2), indicator_types=["FromMathExpression"], objectives=(1, 1), only_objectives=["MinimizeIndicator", "MaximizeIndicator"],
                         indicator_constraints=70, optional_constraints=75, p_indicator_bounds=40, p_optional=15, p_release=10, p_due=10, p_work_amount=0)
+# minimised indicators that take negative values (differences of task variables, maximum lateness with generous due dates)
+PROFILE_NEG = S.profile(min_tasks=2, max_tasks=3, horizon=(3, 6), p_no_horizon=0, p_resources=30, task_constraints=(0, 1), optional_rules=(0, 0), resource_constraints=(0, 0),
+                        indicators=(1, 2), indicator_types=["FromMathExpression", "FromMathExpression", "MaximumLateness"], arith_kinds=[1, 1, 3], arith_ops=["-"],
+                        objectives=(1, 1), only_objectives=["MinimizeIndicator"], objective_direction="min", indicator_constraints=40, optional_constraints=30, p_indicator_bounds=30,
+                        p_optional=10, p_release=10, p_due=60, p_work_amount=0, p_weight_zero=0)
 VALID_FAMILIES = ("T", "W", "TC", "RC", "OPT", "BUF", "FOL")
 
 
@@ -220,6 +225,7 @@ def run_shard(ctx):
     n = {"quick": 35, "thorough": 400}[ctx.tier]
     run_hypothesis(ctx, cases(), prop, max_examples=n)
     run_hypothesis(ctx, cases(PROFILE_IND), prop, max_examples=n)
+    run_hypothesis(ctx, cases(PROFILE_NEG), prop, max_examples=n)
 
 
 def replay(record):
